@@ -371,6 +371,9 @@ def run_item(ctx, item):
             c.parent = g
         structure = [g] + parts[2:]
     sc = S.Score(structure, id="c04")
+    if not any(len(p.notes) for p in parts):
+        ctx.extra["scores_without_any_note_skipped"] += 1       # nothing to write: outside the statement
+        return
     all_divs = {q for m_ in metas for _, q in m_["divs"]}
     nonbinary = any(m_["tuplets"] for m_ in metas) or any(q % 3 == 0 or q % 5 == 0 or q % 7 == 0 for q in all_divs)
     configs = [(rng.randrange(6), rng.choice(["shift", "pad_bar", "time_sig_change"]), rng.choice([0, 24, 480, 481]), rng.choice([1, 64, 80, 127]))
